@@ -202,6 +202,13 @@ type Conn struct {
 	Config ConnConfig
 }
 
+// currentWireConn returns the wire connection installed by the last (re)connect.
+func (c *Conn) currentWireConn() *wire.ClientConn {
+	c.wireConnMu.Lock()
+	defer c.wireConnMu.Unlock()
+	return c.wireConn
+}
+
 func (c *Conn) isClosed() bool {
 	return c.state.Is(connStatusClosed)
 }
@@ -383,7 +390,7 @@ func (c *Conn) OpenUpstream(ctx context.Context, sessionID string, opts ...Upstr
 					return
 				}
 
-				if err := u.resume(c.wireConn); err != nil {
+				if err := u.resume(c.currentWireConn()); err != nil {
 					u.logger.Errorf(ctx, "failed to resume upstream: %+v", err)
 					return
 				}
